@@ -752,3 +752,61 @@ def _buffer_tolerant(self):
 
 
 HashRules.buffer = _buffer_tolerant
+
+
+def _finaliser_bounds(self):
+    """R11.f: for every final-block size the finaliser's memset/memcpy stay inside the 64-byte block buffer."""
+    prog, rec = self.prog, self.rec
+    for sub in self.subs:
+        m = self.methods(sub)
+        f = m['final']
+        bad = []
+        n = 0
+        for r in range(64):
+            ev = []
+
+            class Lst:
+                def on_memset(self, I, st, node, dst, val, size):
+                    ev.append(('memset', dst, size, node))
+
+                def on_memcpy(self, I, st, node, dst, src, size):
+                    ev.append(('memcpy', dst, size, node))
+
+                def on_new(self, I, st, node, obj, count, at):
+                    caps[obj] = count
+
+                def on_decl(self, I, st, decl, loc, node, fr):
+                    t = I.prog.type(decl['t'])
+                    if t.get('k') == 'array' and t.get('size'):
+                        caps[loc[0]] = C(t['size'])
+            caps = {}
+
+            def compress_model(I, st, fr, nd, this, args, an):
+                if len(args) == 1:
+                    return [(st, ('void',))]
+                return None
+            I = interp.Interp(prog, listeners=[Lst()], models=dict(models.STD_MODELS))
+            I.models[m['compress']['q']] = compress_model
+            I.concrete_loops = True
+            st = interp.State()
+            st.mem[(OBJ, (self.total,))] = C(0)
+            st.mem[(OBJ, ('$dyn',))] = ('type', sub['q'])
+            I.run(f, st, this=P(OBJ, ()), args=[P(MSG, (0,)), C(r)])
+            rec.saw(I)
+            for kind, dst, size, node in ev:
+                if dst[0] != 'p' or dst[1] == MSG:
+                    continue
+                cap = caps.get(dst[1])
+                n += 1
+                off = dst[2][-1] if dst[2] and isinstance(dst[2][-1], int) else None
+                rs = rng(size, st.sym) if is_int(size) else None
+                if cap is None or cap[0] != 'c' or off is None or rs is None:
+                    bad.append((r, '%s of %s bytes at %s: extent not decidable' % (kind, show(size), show(dst)), None))
+                elif off + rs[1] > cap[1] or rs[1] > (1 << 20):
+                    bad.append((r, '%s of %s bytes at offset %d of a %d-byte block' % (kind, show(size), off, cap[1]), False))
+        viol = [b for b in bad if b[2] is False]
+        rec.ob('R11.f', 'R11.f@%s::finaliser-writes-inside-block' % fkey(f), (False if viol else (None if bad else True)), '%s:%s' % (f['file'], f['line']),
+               '%s: memset/memcpy extents for final-block sizes 0..63: %s' % (sub['q'], 'all inside the block (%d operations)' % n if not bad else 'size %d: %s' % ((viol or bad)[0][0], (viol or bad)[0][1])))
+
+
+HashRules.finaliser_bounds = _finaliser_bounds
